@@ -61,16 +61,33 @@ func (g *agen) schema(d int) O {
 		return g.pe(O{"type": "string"})
 	}
 	s := g.pe(O{})
+	// 1..3 schema-bearing keywords per schema, so that keyword combinations occur (single items
+	// together with additionalItems, properties together with additionalProperties, ...)
+	n := 1
+	if g.Pct(35) {
+		n = g.Int(2, 3)
+	}
+	for i := 0; i < n; i++ {
+		g.feature(s, d)
+	}
+	return s
+}
+
+func (g *agen) feature(s O, d int) {
 	switch g.Int(0, 10) {
 	case 0:
-		s["type"] = "object"
+		if _, ok := s["type"]; !ok {
+			s["type"] = "object"
+		}
 	case 1:
 		s["properties"] = O{g.name(): g.schema(d + 1), g.name(): g.schema(d + 1)}
 		g.Label("kw:properties")
 	case 2:
-		s["type"] = "array"
-		s["items"] = g.schema(d + 1)
-		g.Label("kw:items")
+		if _, ok := s["items"]; !ok {
+			s["type"] = "array"
+			s["items"] = g.schema(d + 1)
+			g.Label("kw:items")
+		}
 	case 3:
 		s["additionalProperties"] = g.schema(d + 1)
 		g.Label("kw:additionalProperties")
@@ -78,9 +95,11 @@ func (g *agen) schema(d int) O {
 		s["allOf"] = A{g.schema(d + 1), g.schema(d + 1)}
 		g.Label("kw:allOf")
 	case 5:
-		s["type"] = "array"
-		s["items"] = A{g.schema(d + 1), g.schema(d + 1)}
-		g.Label("kw:items[]")
+		if _, ok := s["items"]; !ok {
+			s["type"] = "array"
+			s["items"] = A{g.schema(d + 1), g.schema(d + 1)}
+			g.Label("kw:items[]")
+		}
 		if g.Pct(50) {
 			s["additionalItems"] = g.schema(d + 1)
 			g.Label("kw:additionalItems")
@@ -101,7 +120,6 @@ func (g *agen) schema(d int) O {
 		s["not"] = g.schema(d + 1)
 		g.Label("kw:not")
 	}
-	return s
 }
 
 func (g *agen) items(d int) O {
